@@ -156,6 +156,15 @@ def collect_impls(syn):
     return out
 
 
+_CONST_VALUES = {}
+
+
+def _load_consts(syn):
+    for it in syn.items:
+        if it["kind"] == "const" and it["file"].startswith("ts-rs/src") and S.unquote((it.get("value") or "").strip()) is not None:
+            _CONST_VALUES[it["name"]] = S.unquote(it["value"].strip())
+
+
 def _ts_methods(crate, _memo={}):
     """paths of every method of an `impl TS for ..` in the crate: helpers shared by them (and by nothing else) are theirs"""
     if id(crate) not in _memo:
@@ -167,6 +176,16 @@ def mir_shape(crate, body):
     """the TypeScript shapes a name()/inline() body can produce, as format-string-like literals (`{}` for a spliced-in
     value): the literal text it appends in control-flow order, split where the function chooses between alternatives
     (a call into another impl's name()/inline() ends one alternative)"""
+    # first choice: a symbolic reading of the returned String (helpers of the crate expanded, named constants resolved)
+    from vlib import symstr as SS
+    try:
+        atoms = SS.expand(crate, SS.Sym(crate, body).returned(), prefix="", stop=[r"TS::(name|inline|ident)$", r"^<.* as TS>::"])
+    except Exception:
+        atoms = [("unknown", "error")]
+    if atoms and not any(a[0] in ("unknown", "derived", "param") for a in atoms) and any(a[0] in ("lit", "named") for a in atoms):
+        sh = SS.shape(atoms, named=lambda n: _CONST_VALUES.get(n.split("::")[-1]))
+        if "{}" in sh or lit_class(sh):
+            return [sh, re.sub(r"(\{\}(, )?)+", "{}", sh)]
     ib = crate.inlined(body, siblings=_ts_methods(crate))
     ems = M.text_emissions(ib)
     if not ems:
@@ -207,12 +226,37 @@ def class_table_rule(syn, crate, prop, rule="C12.R1"):
         ref = json.load(fh)
     classes = ref["classes"]
     impls = collect_impls(syn)
+    _load_consts(syn)
     meta = impls[0]
+    unread = {"impl_primitives_literal": "impl_primitives!", "impl_wrapper_transparent": "impl_wrapper!", "impl_shadow_delegates": "impl_shadow!"}
+    redo = set()
     for k, v in meta.items():
         if k != "meta":
-            r.inst(macro_template=k, ok=v)
+            r.inst(macro_template=k, read_from_source=v)
             if not v:
-                r.fail(prop, "macro-template %s" % k, "the macro_rules template no longer has the expected shape (%s)" % k)
+                # the macro is written differently: what its impls return is read off the expanded functions (MIR) instead
+                redo.add(unread.get(k))
+    for o in impls[1:]:
+        if o["how"] in redo:
+            bodies = [b for b in crate.bodies if b.raw.get("impl_trait") == "TS" and b.raw.get("assoc_name") == "name" and norm_ty(re.sub(r"\b(\w+::)+", "", b.raw.get("impl_self") or "")) == norm_ty(re.sub(r"\b(\w+::)+", "", o["ty"]))]
+            o["class"], o["delegate"] = None, None
+            if len(bodies) == 1:
+                shapes = mir_shape(crate, bodies[0])
+                for sh in shapes:
+                    o["class"] = o["class"] or lit_class(sh)
+                if not o["class"]:
+                    dl = [t for _, t in bodies[0].calls() if fn_matches(t, r"TS::name$") and not bodies[0].is_cleanup(_)]
+                    if len(dl) == 1 and (dl[0]["fn"].get("args") or [None])[0]:
+                        a0 = dl[0]["fn"]["args"][0]
+                        gp = bodies[0].raw.get("generic_params") or []
+                        if a0 in gp:
+                            o["class"] = "transparent"
+                        else:
+                            o["delegate"] = norm_ty(re.sub(r"\b(\w+::)+", "", a0))
+                o["how"] = o["how"] + " (read from the expanded impl)"
+            else:
+                o["how"] = o["how"] + " (not in this build)"
+                o["class"] = "undecided"
     by_ty = {}
     for o in impls[1:]:
         by_ty[o["ty"]] = o
@@ -245,6 +289,19 @@ def class_table_rule(syn, crate, prop, rule="C12.R1"):
         if o.get("class") and ms.get("name") and ms.get("inline"):
             o["name_literals"], o["inline_literals"] = sorted(set(ms["name"])), sorted(set(ms["inline"]))
 
+    # a hand-written impl that forwards to another type's impl (possibly named through a type alias): the target is
+    # read off the resolved call
+    for o in impls[1:]:
+        if o["how"] != "impl" or o.get("class"):
+            continue
+        bodies = [b for b in crate.bodies if b.raw.get("impl_trait") == "TS" and b.raw.get("assoc_name") == "name"
+                  and (b.raw.get("impl_span") or {}).get("line") == o["line"] and str((b.raw.get("impl_span") or {}).get("file", "")).endswith(o["file"].split("/")[-1])]
+        if len(bodies) == 1:
+            dl = [t for blk, t in bodies[0].calls() if fn_matches(t, r"TS::name$") and not bodies[0].is_cleanup(blk)]
+            others = [t for blk, t in bodies[0].calls() if not bodies[0].is_cleanup(blk) and not fn_matches(t, r"TS::name$")]
+            if len(dl) == 1 and not others and (dl[0]["fn"].get("args") or [None])[0] and dl[0]["fn"]["args"][0] not in (bodies[0].raw.get("generic_params") or []):
+                o["delegate"] = norm_ty(re.sub(r"\b(\w+::)+", "", dl[0]["fn"]["args"][0]))
+
     # also where the shape was read from a literal in place: no path may hand the argument through unchanged
     for o in impls[1:]:
         if o["how"] == "impl" and o.get("class") and not str(o["class"]).startswith("mixed") and o["class"] != "transparent":
@@ -275,6 +332,9 @@ def class_table_rule(syn, crate, prop, rule="C12.R1"):
                 r.fail(prop, "repr-unrecognised %s" % o["ty"], "cannot classify the TypeScript form of %s" % o["ty"], o["file"], o["line"])
             continue
         wants = want if isinstance(want, list) else [want]
+        if got == "undecided":
+            r.inst(type=o["ty"], got=None, expected=wants, verdict="undecided: the macro that writes this impl is not read from source and the impl is not part of this build", where=where, how=o["how"])
+            continue
         ok = got in wants
         r.inst(type=o["ty"], got=got, expected=wants, verdict="agree" if ok else "DISAGREE", where=where, how=o["how"])
         if not ok:
